@@ -299,3 +299,5 @@ Print Assumptions C10_evolve_block_injective.
 Print Assumptions C10_evolve2d_block_injective.
 Print Assumptions C10_block_rejects_1d.
 Print Assumptions C10_block_rejects_2d.
+From CPL Require Import gen.GenFuns_C10 GenProps.GenFunsEquivC10 GenProps.C10Src. (* source tie: gen/GenFuns_C10.v is regenerated from ca_functions.py on every run *)
+Theorem C10_source_tie : forall (init : list Z) (b m : nat), (1 <= b)%nat -> length init = (m * b)%nat -> src_block_indices init (Z.of_nat b) = (if (m =? 0)%nat then Raise IndexError else Ok (map (map Z.of_nat) (blocks_odd (m * b) b), map (map Z.of_nat) (blocks_even (m * b) b))). Proof. exact C10_source_translation_agrees. Qed. Print Assumptions C10_source_tie.
